@@ -393,9 +393,11 @@ def main():
         raise MachineryFailure("corrupted trace accepted: binding is vacuous")
     ck.traces_validated = n0
 
-    ck.assume("data arrays are 1x1 with small integer values; array-shaped "
-              "behaviour (broadcasting, aliasing of caller arrays) is not "
-              "covered")
+    ck.assume("the specification speaks about 1x1 arrays with small integer "
+              "values; every replayed history is also run on a shadow object "
+              "holding 3x5 complex arrays (value x a fixed array) whose "
+              "views must be the 1x1 views times that array; aliasing of "
+              "caller arrays is not covered")
     ck.assume("TLC bound: 3 addable types, 2 tags, value 1, histories <= 4 "
               "(5 thorough); simulated histories up to 8 calls, recorded "
               "ones up to 14 calls")
